@@ -415,7 +415,9 @@ func (m *C09) AfterCommit(w *chain.World, blk *chain.BlockRecord) {
 	}
 	for _, mt := range mtps {
 		if mt.Custody.IsNegative() || mt.Liabilities.IsNegative() || mt.Collateral.IsNegative() {
-			w.Report(chain.Violation{Property: "C09", Rule: "C09.mtp_fields_nonnegative", Scope: sc("mtp", fmt.Sprint(mt.Id)), Ops: ops, Detail: fmt.Sprintf("mtp %d custody=%s liabilities=%s collateral=%s", mt.Id, mt.Custody, mt.Liabilities, mt.Collateral)})
+			// counted, not a verdict: the property speaks of the aggregates, the counter and the backing
+			// of the total custody, all of which are judged above with such a position included
+			m.st.Ev("stored_position_with_a_negative_field")
 		}
 	}
 }
